@@ -409,7 +409,9 @@ def elems(o):
     kind, ti = classify_obj(o)
     if ti.shape == "prim":
         return list(o)
-    return [copy_elem(ti, e) for e in o]
+    # references into the array (kept alive by Boost.Python): the python constructors of the 64-bit integer
+    # vectors convert through double, so copying through them would round large values
+    return [e for e in o]
 
 
 # --------------------------------------------------------------------------- entry points
@@ -1216,7 +1218,9 @@ class Exerciser:
         worst, nchk, nexact, bad = 0, 0, 0, None
         fn = getattr(imath, e.name) if how == "module" else None
         for i in range(L):
-            sargs = [copy_elem(s.ti, pick(s, v, i)) for s, v in zip(specs, vals)]
+            # copy only what the scalar call may modify (its self); everything else is passed as read
+            sargs = [(copy_elem(s.ti, pick(s, v, i)) if (j == 0 and (s.lv or s.kind == "scalar")) else pick(s, v, i))
+                     for j, (s, v) in enumerate(zip(specs, vals))]
             try:
                 if how == "module":
                     r = fn(*sargs)
@@ -1282,10 +1286,13 @@ class Exerciser:
             if pack(tti, rn) == pack(tti, gn):
                 nexact += 1
                 continue
-            if tti.isfloat and how == "module" and tti.base == "f32" and \
-                    any(isinstance(x, float) and (x != x or math.isinf(x)) for x in rn + gn):
-                # python floats select the `double` overload of the module function: overflow / invalid in
-                # single precision has no counterpart there
+            if tti.isfloat and how == "module" and tti.base == "f32" and (
+                    any(isinstance(x, float) and (x != x or math.isinf(x)) for x in rn + gn) or
+                    any(isinstance(x, float) and (x != x or abs(x) > 1e18 or 0 < abs(x) < 1e-18)
+                        for s_, a_ in zip(specs, sargs) if s_.ti.isfloat for x in flat(s_.ti, a_))):
+                # python floats select the `double` overload of the module function: overflow / underflow /
+                # invalid in single precision (and the overflow guards of lerpfactor etc.) have no counterpart
+                # there, so inputs outside [1e-18, 1e18] are not compared with the scalar binding
                 summ["scalar_nonfinite_skipped"] = summ.get("scalar_nonfinite_skipped", 0) + 1
                 nchk -= 1
                 continue
@@ -1300,11 +1307,12 @@ class Exerciser:
                         else:
                             # relative to the largest component of the element (sum-of-terms scale)
                             eps = 2.0 ** (-23 if tti.base == "f32" else -52)
-                            rel = abs(float(x) - float(y)) / (scale * eps) if scale > 0 and not math.isinf(scale) else u
+                            rel = abs(float(x) - float(y)) / (scale * eps) if scale * eps > 0 and not math.isinf(scale) else u
                             w = max(w, min(u, rel))
                     elif x != y:
                         w = max(w, 10 ** 9)
-                if w > self.o["ulp_tol"] and w < 10 ** 9 and how in ("module", "scalar-self", "element-method"):
+                allfinite = all((not isinstance(x, float)) or (x == x and not math.isinf(x)) for x in rn + gn)
+                if w > self.o["ulp_tol"] and allfinite and how in ("module", "scalar-self", "element-method"):
                     # The scalar binding may evaluate in another precision (python floats select the `double`
                     # overload): allow a few ulps of the SUM OF ABSOLUTE TERMS, estimated by the sensitivity of
                     # the scalar binding to a one-ulp perturbation of each primitive float input.
